@@ -3,9 +3,16 @@
 //! Record  C <method> <class> <txid hex> <buflen> <fill 0|255|r> <attrs>     attrs: p<type>.<value hex>  m<key hex>  s<key hex>  f
 //! Result  I OK <size> <md5 of the whole buffer afterwards>  |  ERR  |  PANIC
 //! Facts   J tail=<0|1>   (after OK: buffer[size..] is still the pre-filled content)
+//!         J indep=<0|1>  (the same message encoded into a buffer with every byte inverted gives the same result and bytes)
+//! Record  C T <method> <class> <txid hex> <buflen> <fill> v<type>:<value token>...   messages of TYPED attribute values (all
+//!         kinds of the attrval generators: nested / padded encoders such as PASSWORD-ALGORITHMS, ERROR-CODE, addresses)
 use rustun_verif_harness::*;
 use stun_rs::attributes::stun::*;
 use stun_rs::*;
+
+#[allow(dead_code)]
+#[path = "attrval.rs"]
+mod av;
 
 #[derive(Clone)]
 enum E {
@@ -45,25 +52,72 @@ fn fill(buflen: usize, f: &str) -> Vec<u8> {
         _ => (0..buflen).map(|i| ((i * 131 + 7) % 256) as u8).collect(),
     }
 }
+fn encode_and_report(out: &mut Out, msg: &StunMessage, buflen: usize, f: &str) {
+    let mut buf = fill(buflen, f);
+    let r = guarded(|| MessageEncoderBuilder::default().build().encode(&mut buf, msg));
+    // the same message into a buffer whose every byte is inverted: same outcome, same size, same bytes written
+    let mut inv: Vec<u8> = fill(buflen, f).iter().map(|b| !b).collect();
+    let r2 = guarded(|| MessageEncoderBuilder::default().build().encode(&mut inv, msg));
+    let same = match (&r, &r2) {
+        (Ok(Ok(n)), Ok(Ok(m))) => n == m && *n <= buflen && buf[..*n] == inv[..*n],
+        (Ok(Err(_)), Ok(Err(_))) => true,
+        (Err(()), Err(())) => true,
+        _ => false,
+    };
+    match r {
+        Err(()) => { out.imp("PANIC"); out.rec(&format!("J indep={}", same as u8)) }
+        Ok(Err(_)) => { out.imp("ERR"); out.rec(&format!("J indep={}", same as u8)) }
+        Ok(Ok(n)) => {
+            out.imp(&format!("OK {} {:x}", n, md5::compute(&buf)));
+            // bytes beyond the returned size: still the pre-filled ones?
+            let before = fill(buflen, f);
+            out.rec(&format!("J tail={} indep={}", (n <= buflen && buf[n..] == before[n..]) as u8, same as u8));
+        }
+    }
+}
 fn run_case(out: &mut Out, method: u16, class: u8, txid: &[u8; 12], buflen: usize, f: &str, l: &[E]) {
     out.rec(&format!("C {} {} {} {} {} {}", method, class, hex(txid), buflen, f,
         if l.is_empty() { "-".to_string() } else { l.iter().map(tok).collect::<Vec<_>>().join(",") }));
     let cls = [MessageClass::Request, MessageClass::Indication, MessageClass::SuccessResponse, MessageClass::ErrorResponse][class as usize];
     let mut b = StunMessageBuilder::new(MessageMethod::try_from(method).unwrap(), cls).with_transaction_id(TransactionId::from(*txid));
     for e in l { b = b.with_attribute(attr_of(e)) }
-    let msg = b.build();
-    let mut buf = fill(buflen, f);
-    let r = guarded(|| MessageEncoderBuilder::default().build().encode(&mut buf, &msg));
-    match r {
-        Err(()) => out.imp("PANIC"),
-        Ok(Err(_)) => out.imp("ERR"),
-        Ok(Ok(n)) => {
-            out.imp(&format!("OK {} {:x}", n, md5::compute(&buf)));
-            // bytes beyond the returned size: still the pre-filled ones?
-            let before = fill(buflen, f);
-            out.rec(&format!("J tail={}", (n <= buflen && buf[n..] == before[n..]) as u8));
-        }
+    encode_and_report(out, &b.build(), buflen, f);
+}
+fn build_typed(method: u16, class: u8, txid: &[u8; 12], specs: &[String]) -> Option<StunMessage> {
+    let cls = [MessageClass::Request, MessageClass::Indication, MessageClass::SuccessResponse, MessageClass::ErrorResponse][class as usize];
+    let mut b = StunMessageBuilder::new(MessageMethod::try_from(method).unwrap(), cls).with_transaction_id(TransactionId::from(*txid));
+    for s in specs {
+        let (ty, tok) = s[1..].split_once(':')?;
+        let a = guarded(|| av::build_stored(ty.parse().ok()?, tok)).ok()??;
+        b = b.with_attribute(a);
     }
+    Some(b.build())
+}
+fn run_typed(out: &mut Out, method: u16, class: u8, txid: &[u8; 12], buflen: usize, f: &str, specs: &[String]) {
+    out.rec(&format!("C T {} {} {} {} {} {}", method, class, hex(txid), buflen, f, specs.join(" ")));
+    match build_typed(method, class, txid, specs) {
+        Some(msg) => encode_and_report(out, &msg, buflen, f),
+        None => { out.imp("UNBUILDABLE"); out.rec("J") }
+    }
+}
+/// typed attribute values within the documented limits (as in suite codecrt), with the structured encoders over-represented
+fn gen_typed(rng: &mut Rng, round: u64, txid: &[u8; 12]) -> Vec<String> {
+    let structured: Vec<usize> = (0..38).filter(|k| matches!(av::KINDS[*k].0, 0x8002 | 0x001D | 0x0009 | 0x8001 | 0x000A | 0x0001 | 0x0020 | 0x8004 | 0x0006 | 0x0014)).collect();
+    let mut specs = vec![];
+    for _ in 0..rng.range(1, 4) {
+        let k = if rng.chance(2, 3) { *rng.pick(&structured) } else { rng.below(38) as usize };
+        let (ty, fam) = av::KINDS[k];
+        if ty == 0x0008 || ty == 0x001C || ty == 0x8028 { continue }
+        let cands = av::gen_specs(rng, round, ty, fam, false);
+        let ok: Vec<String> = cands.iter().filter_map(|t| match guarded(|| av::build(ty, t)) {
+            Ok(Some(a)) if matches!(av::encode_value(&a, txid, 66000), Ok(Some(ref v)) if v.len() <= 600) => Some(av::render(&a)),
+            _ => None }).filter(|r| !r.contains(".s-") && !r.ends_with(":s-") && !r.contains(' ')).collect();
+        if ok.is_empty() { continue }
+        let tok = rng.pick(&ok).clone();
+        if !matches!(guarded(|| av::build_stored(ty, &tok)), Ok(Some(_))) { continue }
+        specs.push(format!("v{}:{}", ty, tok));
+    }
+    specs
 }
 fn parse_attrs(s: &str) -> Vec<E> {
     if s == "-" { return vec![] }
@@ -98,7 +152,11 @@ fn main() {
     if let Some(lines) = args.replay_lines() {
         for l in lines {
             let f: Vec<&str> = l.split(' ').collect();
-            if f[0] == "C" {
+            if f[0] == "C" && f[1] == "T" {
+                let txid: [u8; 12] = unhex(f[4]).try_into().unwrap();
+                let specs: Vec<String> = f[7..].iter().map(|x| x.to_string()).collect();
+                run_typed(&mut out, f[2].parse().unwrap(), f[3].parse().unwrap(), &txid, f[5].parse().unwrap(), f[6], &specs);
+            } else if f[0] == "C" {
                 let txid: [u8; 12] = unhex(f[3]).try_into().unwrap();
                 run_case(&mut out, f[1].parse().unwrap(), f[2].parse().unwrap(), &txid, f[4].parse().unwrap(), f[5], &parse_attrs(f[6]));
             }
@@ -123,6 +181,27 @@ fn main() {
                 if idx % args.shards != args.shard { continue }
                 run_case(&mut out, method, class, &txid, buflen, f, &l);
                 small += 1;
+            }
+        }
+    }
+    // typed attribute values: every buffer length from 0 to needed + 4 with the byte-pattern fill, the last lengths with all fills
+    let tmsgs = if args.thorough { 600 } else { 60 };
+    let mut typed = 0u64;
+    for i in 0..tmsgs {
+        let txid: [u8; 12] = rng.bytes(12).try_into().unwrap();
+        let specs = gen_typed(&mut rng, i, &txid);
+        if specs.is_empty() { continue }
+        let (method, class) = (rng.below(0x1000) as u16, rng.below(4) as u8);
+        let Some(msg) = build_typed(method, class, &txid, &specs) else { continue };
+        let mut big = vec![0u8; 70000];
+        let Ok(Ok(need)) = guarded(|| MessageEncoderBuilder::default().build().encode(&mut big, &msg)) else { continue };
+        for buflen in 0..=need + 4 {
+            for f in ["r", "0", "255"] {
+                if f != "r" && buflen + 1 < need { continue }
+                idx += 1;
+                if idx % args.shards != args.shard { continue }
+                run_typed(&mut out, method, class, &txid, buflen, f, &specs);
+                typed += 1;
             }
         }
     }
@@ -160,6 +239,6 @@ fn main() {
     }
     // a single value beyond 65,535 bytes
     if args.shard == 0 { run_case(&mut out, 1, 0, &[3u8; 12], 70000, "0", &[E::Plain(0x0013, vec![1u8; 65536])]); large += 1; }
-    out.note(&format!("suite=encbuf small_cases={} large_cases={}", small, large));
+    out.note(&format!("suite=encbuf small_cases={} typed_cases={} large_cases={}", small, typed, large));
     out.finish();
 }
